@@ -60,6 +60,8 @@ Ty == [
   \* struct B { unsigned a:3, b:7, c:5, d:17; char e; }
   B     |-> St("struct", 8, 4, <<BF("a", "uint", 0, 0, 29), BF("b", "uint", 0, 3, 22), BF("c", "uint", 0, 10, 17),
                                  BF("d", "uint", 0, 15, 0), M("e", "char", 4)>>),
+  \* struct B2 { char e; unsigned f:5, g:11; }   (bit-fields after a char in the same unit, a bit-field last)
+  B2    |-> St("struct", 4, 4, <<M("e", "char", 0), BF("f", "uint", 0, 8, 19), BF("g", "uint", 0, 13, 8)>>),
   \* struct N { char c; struct P p; char *q; }
   N     |-> St("struct", 24, 8, <<M("c", "char", 0), M("p", "P", 4), M("q", "ptr", 16)>>),
   AU    |-> St("union", 4, 4, <<M("q", "int", 0), M("r", "AC2", 0)>>),
@@ -90,8 +92,10 @@ StrElemW(t) == IF Kind(t) = "arr" /\ Ty[t].base \in {"char", "int"} THEN Ty[Ty[t
 StrData(id) == IF id = 1 THEN <<112, 113>> ELSE <<119, 120, 121, 122>>      \* "pq"  "wxyz"
 \* j-th value token of an initializer (Salt rotates)
 ValTab == <<287454020, 1432778632, -2, 2054913149, 65, 19088743, -1985229329, 258>>
-Val(j) == ValTab[((j - 1 + Salt) % 8) + 1]
-AddrIx(j) == ((j - 1 + Salt) % 8) + 1                                      \* which address constant of AddrTab
+\* the value token at position i of the initializer, the j-th value token: which table entries it denotes
+\* (mixing the position in lets short initializers reach all entries; Salt rotates)
+Val2(i, j) == ValTab[((i + 2 * j + Salt) % 8) + 1]
+AddrIx2(i, j) == ((i + 2 * j + Salt) % 8) + 1                               \* which address constant of AddrTab
 \* address constants: C text, and what they denote: a named object/function plus addend, or (sym = "") an
 \* unnamed object (string literal, compound literal) identified by its content `obj`, plus addend
 AddrC(c, sym, add, obj) == [c |-> c, sym |-> sym, add |-> add, obj |-> obj]
@@ -197,8 +201,8 @@ DErr == [ok |-> FALSE, pos |-> 0, w |-> <<>>, mx |-> 0]
 LeafWrite(ts, i, pi, n) ==
   LET tk == ts[i]
       t  == pi.ty
-  IN CASE tk.k = "v" /\ Kind(t) = "int" -> <<W(pi.lo, pi.w, "int", Val(VOrd(ts, i)), <<>>, pi.un, i, t)>>
-       [] tk.k = "v" /\ Kind(t) = "ptr" -> <<W(pi.lo, 64, "addr", AddrIx(VOrd(ts, i)), <<>>, pi.un, i, t)>>
+  IN CASE tk.k = "v" /\ Kind(t) = "int" -> <<W(pi.lo, pi.w, "int", Val2(i, VOrd(ts, i)), <<>>, pi.un, i, t)>>
+       [] tk.k = "v" /\ Kind(t) = "ptr" -> <<W(pi.lo, 64, "addr", AddrIx2(i, VOrd(ts, i)), <<>>, pi.un, i, t)>>
        [] tk.k = "s" /\ Kind(t) = "ptr" -> <<W(pi.lo, 64, "saddr", tk.n, <<>>, pi.un, i, t)>>
        [] tk.k = "s" /\ StrElemW(t) > 0 /\ Len(StrData(tk.n)) <= n ->
             <<W(pi.lo, n * StrElemW(t) * 8, "bytes", 0, StrBytes(tk.n, n, StrElemW(t)), pi.un, i, t)>>
@@ -595,8 +599,8 @@ BadItem == /\ pc = "item" /\ CurTok.k \in {"}", "m", "i"}
 
 \* the initializer expression denoted by token tk when it lands on an object of type t
 ExprOf(tk, i, t) ==
-  CASE tk.k = "v" /\ Kind(t) = "int" -> [k |-> "int", v |-> Val(VOrd(toks, i)), ty |-> t, d |-> <<>>, w |-> 0]
-    [] tk.k = "v" /\ Kind(t) = "ptr" -> [k |-> "addr", v |-> AddrIx(VOrd(toks, i)), ty |-> t, d |-> <<>>, w |-> 0]
+  CASE tk.k = "v" /\ Kind(t) = "int" -> [k |-> "int", v |-> Val2(i, VOrd(toks, i)), ty |-> t, d |-> <<>>, w |-> 0]
+    [] tk.k = "v" /\ Kind(t) = "ptr" -> [k |-> "addr", v |-> AddrIx2(i, VOrd(toks, i)), ty |-> t, d |-> <<>>, w |-> 0]
     [] tk.k = "s" /\ Kind(t) = "ptr" -> [k |-> "saddr", v |-> tk.n, ty |-> t, d |-> <<>>, w |-> 0]
     [] tk.k = "s" /\ StrElemW(t) > 0 -> [k |-> "str", v |-> tk.n, ty |-> t, d |-> Append(StrData(tk.n), 0), w |-> StrElemW(t)]
     [] tk.k = "g" /\ t = "P"         -> [k |-> "agg", v |-> 0, ty |-> t, d |-> <<>>, w |-> 0]
@@ -887,7 +891,7 @@ Emit ==
 
 \* tables the harness needs (types for rendering and for the gcc audit, value tables)
 EmitTables ==
-  pc = "head" => PrintT("VTABLES " \o ToJson([ty |-> Ty, vals |-> [j \in 1..8 |-> Val(j)], addr |-> [j \in 1..8 |-> AddrTab[AddrIx(j)]],
+  pc = "head" => PrintT("VTABLES " \o ToJson([ty |-> Ty, vals |-> ValTab, addr |-> AddrTab,
                                strs |-> <<StrData(1), StrData(2)>>, aggx |-> AggX, aggy |-> AggY]))
 
 \* terminal states only matter through the token history
